@@ -638,71 +638,6 @@ Section SliceBranch.
   Qed.
 End SliceBranch.
 
-(* ------------------------------------------------------------------ 6. assembly *)
-
-Section Core.
-  Context (ps : list cpart) (fs : list nd) (T : list Z) (dt : Z).
-  Context (HP : Forall2 (part_ok T dt) ps fs).
-  Context (Hne : ps <> []).
-  Context (Hlen : Forall (fun p => 0 <= part_len p) ps).
-
-  Let lens := map part_len ps.
-  Let CH := List.concat (map (fun f => children (nd_body f)) fs).
-  Let total := zsum lens.
-
-  (* head kinds whose branch is proved below *)
-  Definition head_proved (head : aidx) : Prop :=
-    match head with AInt _ | ASlice _ _ _ => True | _ => False end.
-
-  Lemma head_all tail S head out0 : List.length tail = List.length T ->
-    mapM (fun p => resolve (fst p) (snd p)) (combine T tail) = Ok S ->
-    head_proved head ->
-    c_head ps dt total S head tail = Ok out0 ->
-    exists hs, resolve total head = Ok hs /\ head_result fs dt S out0 hs.
-  Proof.
-    intros HT HS Hh HC. destruct head as [z|a b cc|m|l]; try contradiction.
-    - exact (head_scalar ps fs T dt tail S HP HT HS Hne Hlen z out0 HC).
-    - cbn [c_head] in HC. fold lens in HC. fold total in HC.
-      destruct (slice_indices total a b cc) as [[[start stop] st]|] eqn:ESI; [|discriminate].
-      destruct (st <? 0) eqn:Est; [discriminate|].
-      assert (Htot : 0 <= total).
-      { unfold total. pose proof (lens_nonneg ps Hlen) as LN. fold lens in LN. clear -LN.
-        induction LN; cbn; [lia|]. fold (zsum l). lia. }
-      destruct (slice_indices_bounds _ _ _ _ _ _ _ Htot ESI) as [H0 [Bp _]].
-      specialize (Bp ltac:(lia)).
-      destruct (mapM _ _) as [chunks|] eqn:EM in HC; [|discriminate]. cbn [bind] in HC.
-      exists (py_range start stop st, false). split.
-      + cbn [resolve]. unfold slice_positions. now rewrite ESI.
-      + assert (Hst : 0 < st) by lia.
-        exact (head_slice_chunks ps fs T dt tail S HP HT HS Hne Hlen start stop st Hst (proj1 Bp) (proj2 Bp) chunks out0 EM HC).
-  Qed.
-
-  Lemma concat_core ts ixs out :
-    c_initial_dtype ps = Ok dt ->
-    head_proved (hd full (pad_to (Datatypes.S (List.length T)) ixs)) ->
-    c_getitem (mk_concat ps ts) ixs = Ok out ->
-    (r <- oindex (mk_nd (total :: T) (Node CH)) ixs ;; apply_transforms ts (mk_arr dt r)) = Ok out.
-  Proof.
-    intros Hdt Hh HG. unfold c_getitem in HG. cbn [c_parts c_ts] in HG.
-    assert (HI : c_initial_shape ps = Ok (total :: T) \/ c_initial_shape ps = Err).
-    { unfold c_initial_shape. destruct ps as [|p r] eqn:EP; [now right|].
-      destruct (forallb _ r); [left|now right]. inversion HP as [|? f ? fs' H0 _]; subst.
-      destruct H0 as [_ [Ht _]]. rewrite Ht. reflexivity. }
-    destruct HI as [HI|HI]; rewrite HI in HG; [|discriminate]. cbn [bind] in HG.
-    rewrite Hdt in HG. cbn [bind List.length] in HG.
-    destruct (pad_to (Datatypes.S (List.length T)) ixs) as [|head tail] eqn:EPad; [discriminate|].
-    assert (HT : List.length tail = List.length T).
-    { pose proof (pad_to_length (Datatypes.S (List.length T)) ixs) as PL. rewrite EPad in PL. cbn in PL. lia. }
-    destruct (mapM _ (combine T tail)) as [S|] eqn:ES in HG; [|discriminate]. cbn [bind] in HG.
-    destruct (c_head ps dt total S head tail) as [out0|] eqn:EH; [|discriminate]. cbn [bind] in HG.
-    cbn [hd] in Hh.
-    destruct (head_all tail S head out0 HT ES Hh EH) as [hs [ER [HD HN]]].
-    unfold oindex, resolve_all. cbn [nd_shape nd_body List.length]. rewrite EPad.
-    cbn [combine mapM fst snd]. rewrite ER. cbn [bind]. rewrite ES. cbn [bind].
-    destruct out0 as [d0 n0]. cbn [a_dtype a_nd] in HD, HN. subst d0 n0. exact HG.
-  Qed.
-End Core.
-
 (* a real part (LazyIndexer without transforms over any source) satisfies part_ok *)
 Lemma part_ok_of_raw r li a1 :
   Forall (fun d => 0 <= d) (r_shape r) -> r_shape r <> [] ->
@@ -731,3 +666,191 @@ Proof.
     unfold spec_getitem in SP. rewrite H1 in SP. cbn [bind] in SP.
     destruct (oindex a1 ixs) as [a2|]; [|discriminate]. cbn in SP. injection SP as <-. split; reflexivity.
 Qed.
+
+(* ------------------------------------------------------------------ 7. mask head *)
+
+Lemma firstn_add {A} : forall x y (l : list A), firstn (x + y) l = firstn x l ++ firstn y (skipn x l).
+Proof. induction x; intros y l; [reflexivity|]. destruct l; cbn; [now rewrite firstn_nil|]. now rewrite IHx. Qed.
+
+Lemma skipn_add {A} : forall x y (l : list A), skipn (x + y) l = skipn y (skipn x l).
+Proof. induction x; intros y l; [reflexivity|]. destruct l; cbn; [now rewrite skipn_nil|]. apply IHx. Qed.
+
+Lemma zslice_split {A} (m : list A) a b c : 0 <= a <= b -> b <= c ->
+  zslice m a c = zslice m a b ++ zslice m b c.
+Proof.
+  intros H1 H2. unfold zslice.
+  replace (Z.to_nat (c - a)) with (Z.to_nat (b - a) + Z.to_nat (c - b))%nat by lia.
+  rewrite firstn_add. f_equal. f_equal. rewrite <- skipn_add. f_equal. lia.
+Qed.
+
+Lemma zslice_len {A} (m : list A) a b : 0 <= a <= b -> b <= zlen m -> zlen (zslice m a b) = b - a.
+Proof.
+  intros H1 H2. unfold zslice, zlen in *. rewrite firstn_length, skipn_length. lia.
+Qed.
+
+Lemma nonzero_from_app o l1 l2 : nonzero_from o (l1 ++ l2) = nonzero_from o l1 ++ nonzero_from (o + zlen l1) l2.
+Proof.
+  revert o. induction l1 as [|b r IH]; intro o; cbn [app nonzero_from].
+  - change (zlen (@nil bool)) with 0. now rewrite Z.add_0_r.
+  - rewrite IH, zlen_cons. replace (o + 1 + zlen r) with (o + (1 + zlen r)) by lia. destruct b; reflexivity.
+Qed.
+
+Lemma nonzero_from_shift_gen o : forall l i, map (fun q => o + q) (nonzero_from i l) = nonzero_from (o + i) l.
+Proof.
+  induction l as [|b r IH]; intro i; [reflexivity|]. cbn [nonzero_from].
+  replace (o + i + 1) with (o + (i + 1)) by lia. destruct b; cbn [map]; now rewrite IH.
+Qed.
+
+Lemma nonzero_from_shift o l : map (fun q => o + q) (nonzero l) = nonzero_from o l.
+Proof. unfold nonzero. rewrite nonzero_from_shift_gen. now rewrite Z.add_0_r. Qed.
+
+Section MaskBranch.
+  Context (ps : list cpart) (fs : list nd) (T : list Z) (dt : Z) (tail : list aidx) (S : list sel).
+  Context (HP : Forall2 (part_ok T dt) ps fs).
+  Context (HT : List.length tail = List.length T).
+  Context (HS : mapM (fun p => resolve (fst p) (snd p)) (combine T tail) = Ok S).
+  Context (Hne : ps <> []).
+  Context (Hlen : Forall (fun p => 0 <= part_len p) ps).
+
+  Let lens := map part_len ps.
+  Let starts := starts_from 0 lens.
+  Let CH := List.concat (map (fun f => children (nd_body f)) fs).
+  Let total := zsum lens.
+  Let k := List.length ps.
+  Let LN : Forall (fun h => 0 <= h) lens := lens_nonneg ps Hlen.
+
+  Context (m : list bool) (Hm : zlen m = total).
+
+  Let Pos (j : nat) : list Z := map (fun q => bnd lens j + q) (nonzero (zslice m (bnd lens j) (bnd lens (Datatypes.S j)))).
+
+  Lemma mask_telescope : forall n j, (j + n <= k)%nat ->
+    flat_map Pos (seq j n) = nonzero_from (bnd lens j) (zslice m (bnd lens j) (bnd lens (j + n))).
+  Proof.
+    assert (Hl : List.length lens = k) by (unfold lens, k; apply map_length).
+    induction n as [|n IH]; intros j Hj.
+    - cbn [seq flat_map]. rewrite Nat.add_0_r. unfold zslice. rewrite Z.sub_diag. reflexivity.
+    - cbn [seq flat_map]. rewrite IH by lia. unfold Pos. rewrite nonzero_from_shift.
+      pose proof (bnd_nonneg lens j LN). pose proof (bnd_mono lens j LN ltac:(lia)).
+      pose proof (bnd_mono_le lens (Datatypes.S j) (Datatypes.S j + n) LN ltac:(lia)).
+      pose proof (bnd_mono_le lens (Datatypes.S j + n) k LN ltac:(lia)).
+      assert (bnd lens k = total) by (unfold total; rewrite <- Hl; apply bnd_all).
+      replace (j + Datatypes.S n)%nat with (Datatypes.S j + n)%nat by lia.
+      rewrite (zslice_split m (bnd lens j) (bnd lens (Datatypes.S j)) (bnd lens (Datatypes.S j + n))) by lia.
+      rewrite nonzero_from_app. rewrite zslice_len by lia. do 2 f_equal. lia.
+  Qed.
+
+  Lemma head_mask_chunks chunks out :
+    mapM (mask_chunk m tail (take_shape S)) (combine (combine ps starts) lens) = Ok chunks ->
+    concat_chunks dt (take_shape S) chunks = Ok out ->
+    head_result fs dt S out (nonzero m, false).
+  Proof.
+    intros HM HC.
+    assert (Hl : List.length lens = k) by (unfold lens, k; apply map_length).
+    set (pd := mk_cpart (mk_lazyidx [] [] [] 0) (Leaf 0)).
+    assert (HCmb : combine (combine ps starts) lens
+                   = map (fun j => (nth j ps pd, nth j starts 0, nth j lens 0)) (seq 0 k)).
+    { apply nth_ext with (d := (pd, 0, 0)) (d' := (nth 0 ps pd, nth 0 starts 0, nth 0 lens 0)).
+      - rewrite !combine_length, map_length, seq_length. unfold starts. rewrite starts_from_length, Hl. fold k. lia.
+      - intros n Hn. rewrite !combine_length in Hn. unfold starts in Hn. rewrite starts_from_length, Hl in Hn. fold k in Hn.
+        rewrite !combine_nth by (rewrite ?combine_length; unfold starts; rewrite ?starts_from_length, ?Hl; fold k; lia).
+        change (nth 0 ps pd, nth 0 starts 0, nth 0 lens 0)
+          with ((fun j => (nth j ps pd, nth j starts 0, nth j lens 0)) 0%nat).
+        rewrite map_nth. rewrite seq_nth by lia. reflexivity. }
+    rewrite HCmb, mapM_map in HM.
+    assert (HF : Forall2 (fun j c => a_dtype c = dt /\ a_nd c = mk_nd (zlen (Pos j) :: take_shape S) (Node (map (row CH S) (Pos j))))
+                         (seq 0 k) chunks).
+    { eapply mapM_Forall2_rel; [exact HM|]. intros j c Hin Hc. apply in_seq in Hin.
+      assert (Hj : (j < k)%nat) by lia.
+      unfold mask_chunk in Hc. cbn [fst snd] in Hc.
+      assert (Hoff : nth j starts 0 = bnd lens j).
+      { unfold starts. rewrite starts_from_nth by (rewrite Hl; exact Hj). lia. }
+      rewrite Hoff in Hc. rewrite <- bnd_S in Hc by (rewrite Hl; exact Hj).
+      destruct (part_get (nth j ps pd) _) as [sub|] eqn:EG; [|discriminate]. cbn [bind] in Hc.
+      unfold reshape_chunk in Hc. destruct (existsb _ _); [discriminate|]. injection Hc as <-.
+      destruct (part_rows ps fs T dt tail S HP HT HS Hlen _ pd _ _ Hj EG) as [Pq [d [ER [HD [HN _]]]]].
+      fold lens in ER, HN. fold CH in HN.
+      cbn [resolve] in ER. destruct (zlen _ =? _); [|discriminate]. injection ER as <- <-.
+      split; [exact HD|]. rewrite HN. cbn [take_shape]. fold (Pos j). f_equal. f_equal.
+      unfold Pos. now rewrite zlen_map. }
+    pose proof (chunks_rows fs dt S Pos _ _ _ HF HC) as ->.
+    rewrite (mask_telescope k 0 ltac:(lia)). rewrite bnd_0. cbn [Nat.add].
+    assert (bnd lens k = total) by (unfold total; rewrite <- Hl; apply bnd_all).
+    assert (HZ : zslice m 0 (bnd lens k) = m).
+    { unfold zslice. cbn [Z.to_nat skipn]. rewrite H, <- Hm, Z.sub_0_r. unfold zlen. rewrite Nat2Z.id. apply firstn_all. }
+    rewrite HZ. fold (nonzero m).
+    split; [reflexivity|]. cbn [a_nd take_shape]. rewrite take_node. reflexivity.
+  Qed.
+End MaskBranch.
+
+(* ------------------------------------------------------------------ 6. assembly *)
+
+Section Core.
+  Context (ps : list cpart) (fs : list nd) (T : list Z) (dt : Z).
+  Context (HP : Forall2 (part_ok T dt) ps fs).
+  Context (Hne : ps <> []).
+  Context (Hlen : Forall (fun p => 0 <= part_len p) ps).
+
+  Let lens := map part_len ps.
+  Let CH := List.concat (map (fun f => children (nd_body f)) fs).
+  Let total := zsum lens.
+
+  (* head kinds whose branch is proved below *)
+  Definition head_proved (head : aidx) : Prop :=
+    match head with AInt _ | ASlice _ _ _ | AMask _ => True | AList _ => False end.
+
+  Lemma head_all tail S head out0 : List.length tail = List.length T ->
+    mapM (fun p => resolve (fst p) (snd p)) (combine T tail) = Ok S ->
+    head_proved head ->
+    c_head ps dt total S head tail = Ok out0 ->
+    exists hs, resolve total head = Ok hs /\ head_result fs dt S out0 hs.
+  Proof.
+    intros HT HS Hh HC. destruct head as [z|a b cc|m|l]; try contradiction.
+    - exact (head_scalar ps fs T dt tail S HP HT HS Hne Hlen z out0 HC).
+    - cbn [c_head] in HC. fold lens in HC. fold total in HC.
+      destruct (slice_indices total a b cc) as [[[start stop] st]|] eqn:ESI; [|discriminate].
+      destruct (st <? 0) eqn:Est; [discriminate|].
+      assert (Htot : 0 <= total).
+      { unfold total. pose proof (lens_nonneg ps Hlen) as LN. fold lens in LN. clear -LN.
+        induction LN; cbn; [lia|]. fold (zsum l). lia. }
+      destruct (slice_indices_bounds _ _ _ _ _ _ _ Htot ESI) as [H0 [Bp _]].
+      specialize (Bp ltac:(lia)).
+      destruct (mapM _ _) as [chunks|] eqn:EM in HC; [|discriminate]. cbn [bind] in HC.
+      exists (py_range start stop st, false). split.
+      + cbn [resolve]. unfold slice_positions. now rewrite ESI.
+      + assert (Hst : 0 < st) by lia.
+        exact (head_slice_chunks ps fs T dt tail S HP HT HS Hne Hlen start stop st Hst (proj1 Bp) (proj2 Bp) chunks out0 EM HC).
+    - cbn [c_head] in HC. fold lens in HC. fold total in HC.
+      destruct (zlen m =? total) eqn:EL; [|discriminate].
+      destruct (mapM _ _) as [chunks|] eqn:EM in HC; [|discriminate]. cbn [bind] in HC.
+      exists (nonzero m, false). split.
+      + cbn [resolve]. now rewrite EL.
+      + assert (Hm : zlen m = total) by lia.
+        exact (head_mask_chunks ps fs T dt tail S HP HT HS Hlen m Hm chunks out0 EM HC).
+  Qed.
+
+  Lemma concat_core ts ixs out :
+    c_initial_dtype ps = Ok dt ->
+    head_proved (hd full (pad_to (Datatypes.S (List.length T)) ixs)) ->
+    c_getitem (mk_concat ps ts) ixs = Ok out ->
+    (r <- oindex (mk_nd (total :: T) (Node CH)) ixs ;; apply_transforms ts (mk_arr dt r)) = Ok out.
+  Proof.
+    intros Hdt Hh HG. unfold c_getitem in HG. cbn [c_parts c_ts] in HG.
+    assert (HI : c_initial_shape ps = Ok (total :: T) \/ c_initial_shape ps = Err).
+    { unfold c_initial_shape. destruct ps as [|p r] eqn:EP; [now right|].
+      destruct (forallb _ r); [left|now right]. inversion HP as [|? f ? fs' H0 _]; subst.
+      destruct H0 as [_ [Ht _]]. rewrite Ht. reflexivity. }
+    destruct HI as [HI|HI]; rewrite HI in HG; [|discriminate]. cbn [bind] in HG.
+    rewrite Hdt in HG. cbn [bind List.length] in HG.
+    destruct (pad_to (Datatypes.S (List.length T)) ixs) as [|head tail] eqn:EPad; [discriminate|].
+    assert (HT : List.length tail = List.length T).
+    { pose proof (pad_to_length (Datatypes.S (List.length T)) ixs) as PL. rewrite EPad in PL. cbn in PL. lia. }
+    destruct (mapM _ (combine T tail)) as [S|] eqn:ES in HG; [|discriminate]. cbn [bind] in HG.
+    destruct (c_head ps dt total S head tail) as [out0|] eqn:EH; [|discriminate]. cbn [bind] in HG.
+    cbn [hd] in Hh.
+    destruct (head_all tail S head out0 HT ES Hh EH) as [hs [ER [HD HN]]].
+    unfold oindex, resolve_all. cbn [nd_shape nd_body List.length]. rewrite EPad.
+    cbn [combine mapM fst snd]. rewrite ER. cbn [bind]. rewrite ES. cbn [bind].
+    destruct out0 as [d0 n0]. cbn [a_dtype a_nd] in HD, HN. subst d0 n0. exact HG.
+  Qed.
+End Core.
+
